@@ -4,4 +4,5 @@ pub mod drive;
 pub mod geom;
 pub mod instr;
 pub mod lattice;
+pub mod timing;
 pub mod tol;
